@@ -1568,13 +1568,21 @@ static mi_page_t* mi_segments_page_alloc(mi_heap_t* heap, mi_page_kind_t page_ki
   if (page==NULL) {
     if (commit_failed) return NULL;  // out of memory: a fresh segment would not help (and we would retry, and reserve, forever)
     // no free page, allocate a new segment and try again
-    if (mi_segment_reclaim_or_alloc(heap, slices_needed, block_size, tld) == NULL) {
+    mi_segment_t* const segment = mi_segment_reclaim_or_alloc(heap, slices_needed, block_size, tld);
+    if (segment == NULL) {
       // OOM or reclaimed a good page in the heap
       return NULL;
     }
     else {
       // otherwise try again
-      return mi_segments_page_alloc(heap, page_kind, required, block_size, tld);
+      page = mi_segments_page_alloc(heap, page_kind, required, block_size, tld);
+      // the page can come from another segment after all (a better fitting span became available as a side effect
+      // of `mi_segment_reclaim_or_alloc`), or its commit can fail: do not keep a fresh segment that stays unused,
+      // nothing would ever free it (segments are only reachable through their pages)
+      if (segment->used == 0 && (page == NULL || _mi_ptr_segment(page) != segment)) {
+        mi_segment_free(segment, false, tld);
+      }
+      return page;
     }
   }
   mi_assert_internal(page != NULL && page->slice_count*MI_SEGMENT_SLICE_SIZE == page_size);
